@@ -546,6 +546,11 @@ class FrameExecutor(AlgoExecutor):
             return [(st, ListLV(LabelSet(lambda x: And(ls.mem(x), lst_mem(tok, x)), lambda x: lst_ord(tok, x), "random.sample", n=k)))]
         return AlgoExecutor.ext_call_value(self, st, f, pos, kw)
 
+    def call_modfn(self, st, name, pos, kw):
+        if name == "random.sample":
+            return self.ext_call_value(st, BoundFn("random_sample", "sample"), pos, kw)
+        return AlgoExecutor.call_modfn(self, st, name, pos, kw)
+
     def ext_builtin(self, st, name, pos, kw):
         if name == "set" and len(pos) == 0:
             return [(st, ListLV(LabelSet(lambda x: False, lambda x: z3.IntVal(0), "set()", n=Num.lift(0))))]
